@@ -218,7 +218,7 @@ class Gen:
                     b = desc[b - 1]["parent"]
                 return b
             for _ in range(self.r.randint(1, 2 if branched else 3)):
-                t = self.r.choice(["pip", "pip", "cang", "cspeed", "rod", "rod", "cori", "ball", "ball"])
+                t = self.r.choice(["pip", "pip", "cang", "cspeed", "rod", "rod", "cori", "ball", "ball", "ccoord", "cacc"])
                 if branched:
                     t = self.r.choice(["ball", "ball", "pip", "rod", "cang"])
                 b1, b2 = self.r.randint(0, nb), self.r.randint(1, nb)
@@ -226,6 +226,15 @@ class Gen:
                     pairs = [(a, b) for a in range(1, nb + 1) for b in range(1, nb + 1) if root(a) != root(b)]
                     if pairs:
                         b1, b2 = self.r.choice(pairs)
+                if t in ("ccoord", "cacc"):
+                    TR = {"slider": [1], "cylinder": [2], "planar": [2, 3], "translation": [1, 2, 3], "bushing": [4, 5, 6], "bendstretch": [2], "euler5": [4, 5], "freee": [4, 5, 6]}
+                    cand = [i for i, d in enumerate(desc, 1) if d["type"] in TR] if t == "ccoord" else mobile
+                    if not cand:
+                        continue
+                    b = self.r.choice(cand)
+                    kk = self.r.choice(TR[desc[b - 1]["type"]]) if t == "ccoord" else self.r.randint(1, NU[desc[b - 1]["type"]])
+                    cons.append({"type": t, "b1": b, "k": kk, "s": self.r.randint(-2, 2), "on": int(branched or self.r.random() < 0.8)})
+                    continue
                 if t != "cspeed" and b1 == b2:
                     continue
                 on = int(branched or self.r.random() < 0.8)
@@ -620,19 +629,21 @@ def compare(cfg, want, got):
                 pv2 = e["verrU2"]
                 e["verrU2"], e["aerr0U2"] = pv2 / r, e["aerr0U2"] / r - pv2 * pv2 / r ** 3
                 w["G"][k] = [g / r for g in w["G"][k]]
-        hol = [k for k in on if cfg["cons"][k]["type"] != "cspeed"]
+        hol = [k for k in on if cfg["cons"][k]["type"] not in ("cspeed", "cacc")]
         non = [k for k in on if cfg["cons"][k]["type"] == "cspeed"]
-        order = hol + non                      # the library's equation order: holonomic first, then nonholonomic
+        acc = [k for k in on if cfg["cons"][k]["type"] == "cacc"]
+        order = hol + non + acc                # the library's equation order: holonomic, nonholonomic, acceleration-only
         for k in on:
             g = got["cons"][k]
             t = cfg["cons"][k]["type"]
-            if t != "cspeed":
+            if t not in ("cspeed", "cacc"):
                 chk("C07", "position-error/" + t, w["cons"][k]["perr"], g["perr"])
-            chk("C07", "velocity-error-is-derivative-of-position-error/" + t, w["cons"][k]["verr"], g["verr"])
+            if t != "cacc":
+                chk("C07", "velocity-error-is-derivative-of-position-error/" + t, w["cons"][k]["verr"], g["verr"])
         Gs = [w["G"][k] for k in order]
         chk("C07", "constraint-matrix-G", Gs, got["G"])
         chk("C07", "acceleration-error-is-derivative-of-velocity-error", [w["cons"][k]["aerr0"] for k in order], got["cbias"])
-        chk("C07", "velocity-error-after-a-u-only-change", [w["cons"][k]["verrU2"] for k in on], got["verrU2"])
+        chk("C07", "velocity-error-after-a-u-only-change", [0.0 if cfg["cons"][k]["type"] == "cacc" else w["cons"][k]["verrU2"] for k in on], got["verrU2"])
         chk("C07", "acceleration-bias-after-a-u-only-change", [w["cons"][k]["aerr0U2"] for k in order], got["cbiasU2"])
         gsc = max([1.0] + [abs(v) for v in flat(Gs)])
         small("C07", "multiplyByG-agrees-with-G", got["errG"], gsc * 10)
